@@ -566,7 +566,7 @@ theorem generate_closed (i : Iface) :
           (!(i.methods.filterMap (planOfMethod (setAll [] (strKVs (parseHeaders i.headersDoc))))).any
               (fun p => !p.dict.isEmpty && p.dictIsPtr) &&
             (i.methods.filterMap (planOfMethod (setAll [] (strKVs (parseHeaders i.headersDoc))))).length == i.methods.length) := by
-  unfold generate
+  unfold generate generateH
   simp only [collect_closed]
   cases i.methods.any isFatal with
   | true => rfl
